@@ -1,6 +1,7 @@
 (* C07 -- rule order and containment stay valid under any edit history.
    Statements over the model CssV.Order (step / run), whose tables are regenerated from /repo on every run. *)
-From CssV Require Import Base Order OrderFacts.
+From CssV Require Import Base Order OrderFacts OrderRefine OrderSkeleton.
+From CssV Require Skeleton.
 From CssV.Gen Require Import Kinds.
 
 (* after ANY sequence of operations (insertRule/add with text or object, deleteRule, namespaces[p]=u / del,
@@ -40,6 +41,37 @@ Theorem history_reparse : forall rx ops, Forall op_ok ops -> accept_kinds (kinds
 Proof. exact history_reparse_main. Qed.
 Print Assumptions history_reparse.
 
+(* the full parser model (rule objects, namespace dict, replace-URI path, insertRule with its index checks,
+   _cleanNamespaces) computes on the rule kinds exactly what the kinds-level machine accept_kinds computes, and its
+   final _cleanNamespaces is a no-op -- for a text whose @namespace statements have pairwise distinct prefixes and URIs
+   not declared in the environment and whose style rules use prefixes of the environment only *)
+Theorem parse_refines : forall rx env ps rs e,
+  Forall (proto_wf (mkP [] env 0)) ps -> protos_distinct ps ->
+  parse_sheet rx env ps = inl (rs, e) -> kinds rs = accept_kinds (map pkind ps) /\ e = None.
+Proof. exact parse_refines_main. Qed.
+Print Assumptions parse_refines.
+
+(* so valid_reparse is a theorem about the parser model: a valid sheet whose @namespace rules have distinct prefixes
+   and URIs is read back by parse_sheet (lenient mode) with the same rule kinds *)
+Theorem sheet_reparse : forall rs,
+  valid_sheet rs = true -> dist rs = true -> udist rs = true ->
+  exists rs', parse_sheet false [] (map proto_of_rule rs) = inl (rs', None) /\ kinds rs' = kinds rs.
+Proof. exact sheet_reparse_main. Qed.
+Print Assumptions sheet_reparse.
+
+(* one expected-state machine, two models: the states accept_kinds passes through are those of C04's
+   Skeleton.ord_step (table Gen/UptoGen.gen_sheet_order) on well-formed statements, COMMENT = max(1, state) ... *)
+Theorem accept_kinds_is_sheet_ord : forall ks acc e, accept_states acc e ks = skel_states e ks.
+Proof. exact OrderSkeleton.accept_kinds_is_sheet_ord. Qed.
+Print Assumptions accept_kinds_is_sheet_ord.
+
+(* ... and the full parser model follows ord_step also on malformed statements (style rule with an unknown prefix) *)
+Theorem parse_step_is_ord_step : forall rx st p st1 sk run,
+  parse_step rx st p = inl st1 -> skel_kind (pkind p) = Some sk ->
+  p_expected st1 = fst (Skeleton.ord_step (fun _ _ => proto_wellformed st p) (p_expected st) sk run).
+Proof. exact OrderSkeleton.parse_step_is_ord_step. Qed.
+Print Assumptions parse_step_is_ord_step.
+
 (* a rejected call (an exception, or None from insertRule) leaves the rule list unchanged -- every operation, every
    outcome, both modes.  (Uses: insertRule restores the list when _cleanNamespaces refuses; the parser keeps the
    prefixes of its @namespace rules distinct, so the _cleanNamespaces that ends `cssText =` never raises.) *)
@@ -58,6 +90,12 @@ Example clean_raise_is_unchanged : step true refute_sheet refute_op = (refute_sh
 Proof. exact clean_raise_restores. Qed.
 
 (* non-vacuity *)
+Example parse_refines_nontrivial :
+  (Forall (proto_wf (mkP [] refine_env 0)) refine_text /\ protos_distinct refine_text) /\
+  exists rs, parse_sheet false refine_env refine_text = inl (rs, None)
+             /\ kinds rs = [COMMENT; IMPORT_RULE; NAMESPACE_RULE; NAMESPACE_RULE; STYLE_RULE; MEDIA_RULE].
+Proof. exact (conj refine_text_ok refine_text_run). Qed.
+
 Example history_nontrivial : Forall op_ok demo_ops /\
   kinds (run true demo_ops []) = [CHARSET_RULE; COMMENT; IMPORT_RULE; NAMESPACE_RULE; VARIABLES_RULE; STYLE_RULE].
 Proof. exact (conj demo_ops_ok demo_run). Qed.
